@@ -12,6 +12,7 @@ prolongation before the second.
 All theorems quantify over every initial process, every history and every operation: no length bound.
 -/
 import DarsiaModel.Stateful
+import DarsiaModel.SolverArith
 import DarsiaProofs.Stateful
 namespace Darsia.C16
 open Darsia Darsia.Stateful
@@ -59,8 +60,50 @@ theorem reorder_independent (w0 : World) (h : List Op) (a b : Op)
   · rw [stateless_self_contained w0 (h ++ [a]) b hb, stateless_self_contained w0 h b hb]
   · rw [stateless_self_contained w0 (h ++ [b]) a ha, stateless_self_contained w0 h a ha]
 
+/-- Regularisers (H1, split Bregman) with ANY solver — the default instance or a user's Jacobi / MG object — are
+independent of the whole history AND of the parameters `dim`, `mass_coeff`, `diffusion_coeff` the solver object was
+constructed or left with (the call overwrites all three; only `maxiter`, `tol`, `depth`, `smoother_iterations` and the
+heterogeneity flag of the object matter): `w0'` may be any process whose solver objects differ from those of `w0` in
+those parameters and in caches. -/
+theorem regulariser_stateless (w0 w0' : World) (e : w0'.normP = w0.normP) (h : List Op)
+    (which : Bool) (s : SolverRef) (mass diff : Coef) (dim n : Nat) :
+    (regularise true false (run true false w0 h) which s mass diff dim n).2
+      = (regularise true false w0' which s mass diff dim n).2 := by
+  apply regularise_normP
+  rw [run_normP, e]
+
 /-- A multigrid solve leaves the object as it found it, up to caches (the coefficients in particular). -/
 theorem mg_call_restores (m : MG) : (m.call true false).1.norm = m.norm := (MG.call_norm m).1
+
+/-! ### results, not only read-sets
+
+`DarsiaModel.SolverArith.evalOut` computes the numerical result of a Jacobi solve, a multigrid solve (V-cycles with
+`darsia.laplace`, restriction, prolongation and edge padding as coded) and an H1 regularisation over ℚ from the record
+the call returns and its array arguments; the differential check compares these rationals with the implementation's
+floats (exactly where every diagonal is a power of two, within 1e-12 otherwise).  Since the result is a function of the
+record and the arguments, the statelessness theorems transfer to results. -/
+
+/-- the numerical result of a call after any history equals its result after the parameter settings only -/
+theorem stateless_results (env : Nat → Option Arr) (w0 : World) (h : List Op) (op : Op) (x0 rhs : Arr) :
+    evalOut env op x0 rhs (step true false (run true false w0 h) op).2
+      = evalOut env op x0 rhs (step true false (run true false w0 (h.flatMap Op.settingPart)) op).2 := by
+  rw [stateless]
+
+/-- ... and equals its result in a fresh process for self-contained operations -/
+theorem self_contained_results (env : Nat → Option Arr) (w0 : World) (h : List Op) (op : Op) (hop : op.selfContained = true)
+    (x0 rhs : Arr) :
+    evalOut env op x0 rhs (step true false (run true false w0 h) op).2 = evalOut env op x0 rhs (step true false w0 op).2 := by
+  rw [stateless_self_contained w0 h op hop]
+
+/-- the image returned by `H1_regularization` with any solver depends on the call's arguments only
+(history, caches and the solver object's own `dim` / coefficients are irrelevant) -/
+theorem h1_result_stateless (env : Nat → Option Arr) (w0 w0' : World) (e : w0'.normP = w0.normP) (h : List Op)
+    (s : SolverRef) (mu omega : Coef) (dim channels : Nat) (img : Arr) :
+    evalH1 env dim omega
+        (match (regularise true false (run true false w0 h) true s omega mu dim channels).2 with | .solves rs => rs | _ => []) img
+      = evalH1 env dim omega
+        (match (regularise true false w0' true s omega mu dim channels).2 with | .solves rs => rs | _ => []) img := by
+  rw [regulariser_stateless w0 w0' e h true s omega mu dim channels]
 
 /-! ### the code before the fixes does not have the property -/
 
@@ -107,6 +150,14 @@ example :
       = (step true false (World.init [] [] [AA.new 2 (some 3)] 0) (.anderson 0 [5, 6, 7, 8, 9])).2 ∧
     (step true false (World.init [] [] [AA.new 2 (some 3)] 0) (.anderson 0 [5, 6, 7])).2
       = .aa [.plain 5, .mixed 6 [.diff (some 6) (some 5)], .mixed 7 [.diff (some 6) (some 5), .diff (some 7) (some 6)]] := by
+  decide +kernel
+
+/-- the arithmetic is non-trivial: one Jacobi sweep (dim 1, mass 2, diffusion 1, h = 1) on x0 = [1,2,4], rhs = [4,2,1]
+gives rhs/4 + neighbours(x0)/4 = [7/4, 7/4, 7/4] -/
+example :
+    evalOut (fun _ => none) (.jacCall 0 1 0) ⟨[3], #[1, 2, 4]⟩ ⟨[3], #[4, 2, 1]⟩
+        (.jac ⟨⟨⟨1, .scalar 2, .scalar 1⟩, 1⟩, 1, none⟩)
+      = some [⟨[3], #[7 / 4, 7 / 4, 7 / 4]⟩] := by
   decide +kernel
 
 end Darsia.C16
